@@ -4,7 +4,7 @@
    argvals_stand, finding F7).  Discrete: closed under the global context. *)
 From Coq Require Import List Bool ZArith QArith.
 Local Close Scope Q_scope.
-From FDAV Require Import Model.Container Lemmas.Container Model.Normalize Lemmas.Normalize Gen.Normalize Lemmas.GenNormalize.
+From FDAV Require Import Model.Container Lemmas.Container Model.Normalize Lemmas.Normalize Gen.Normalize Lemmas.GenNormalize Lemmas.NormRange.
 Import ListNotations.
 
 (* an operation that does not succeed leaves the object as it was *)
@@ -118,3 +118,12 @@ Proof. intro xs. exact (conj (gen_norm_dense_is_model xs) (norm_dense_length xs)
 Print Assumptions C11_source_normalization_dense.
 Example C11_norm_dense_example : (norm_dense [2; 3; 6] = [0; 1 # 4; 1] /\ norm_dense [6; 2; 3] = [1; 0; 1 # 4])%Q.
 Proof. vm_compute. split; reflexivity. Qed.
+(* what "standardised" means: every standardised point of a dense grid lies in [0, 1] (grids whose end points differ), and the
+   minimum / maximum used are bounds of the grid *)
+Theorem C11_norm_dense_range : forall xs, (qmin_list xs < qmax_list xs)%Q ->
+  Forall (fun v => 0 <= v /\ v <= 1)%Q (norm_dense xs).
+Proof. exact norm_dense_range. Qed.
+Print Assumptions C11_norm_dense_range.
+Theorem C11_min_max_are_bounds : forall l x, In x l -> (qmin_list l <= x /\ x <= qmax_list l)%Q.
+Proof. intros l x H. exact (conj (qmin_list_le l x H) (qmax_list_ge l x H)). Qed.
+Print Assumptions C11_min_max_are_bounds.
